@@ -19,18 +19,22 @@ EXTENDS Integers, Sequences, FiniteSets, TLC, Json
 CONSTANTS V,        \* interface variables
           M,        \* [V -> set of method names] of the variable's interface type
           B,        \* builders
-          MaxOps, Ops
+          MaxOps, Ops,
+          Kinds,    \* instruction kinds explored: subset of {"apply", "stub", "when"}
+          Args      \* call arguments explored: subset of {7, 8}
 
 None == "none"
 \* requirement value of a variable: holds its original value, or per method the replacement id (0 = not mocked)
 Orig == [orig |-> TRUE, f |-> [x \in {} |-> 0]]
-VARIABLES ivar, cache, ctx, nctx, heap, nobj, alive, objOf, lastKind, owner, okind, exp, hist
+VARIABLES ivar, cache, ctx, nctx, heap, nobj, alive, objOf, lastKind, owner, okind, mm, hm, nmm, mmc, exp, hist
 \* objOf[b][v][m]: object referenced by builder b's method mocker (m.imp) for (v, m)
 \* lastKind[b][v][m]: kind of the last instruction given through builder b's handle for (v, m)
 \* owner[v]: the builder that mocks v ("" = nobody yet). Two builders on the SAME variable are outside the
 \* statement (the second builder backs up and replaces the first one's fabricated value), cf. C02/C11.
 \* okind[o]: how replacement o answers: "apply"/"stub" for every argument, "when" only for the argument it was given (7)
-vars == <<ivar, cache, ctx, nctx, heap, nobj, alive, objOf, lastKind, owner, okind, exp, hist>>
+\* mm[b][v][m]: id of the method mocker registered for m in b's cached interface mocker of v (0 none); hm: the one the
+\* test's kept method handle refers to; mmc: cancelled method mockers
+vars == <<ivar, cache, ctx, nctx, heap, nobj, alive, objOf, lastKind, owner, okind, mm, hm, nmm, mmc, exp, hist>>
 
 Meths == UNION {M[v] : v \in V}
 Init == /\ ivar = [v \in V |-> "orig"]
@@ -43,56 +47,77 @@ Init == /\ ivar = [v \in V |-> "orig"]
         /\ owner = [v \in V |-> ""]
         /\ okind = <<>>
         /\ lastKind = [b \in B |-> [v \in V |-> [m \in Meths |-> "none"]]]
+        /\ mm = [b \in B |-> [v \in V |-> [m \in Meths |-> 0]]] /\ hm = mm /\ nmm = 0 /\ mmc = {}
         /\ exp = [v \in V |-> Orig]
         /\ hist = <<>>
 
 Log(r) == hist' = Append(hist, r)
 ObsVar(e) == [v \in V |-> IF e[v].orig THEN "orig" ELSE "fake"]
 
-\* b.Interface(&v).Method(m).<Apply | As().Return>: kind "apply" or "stub".
+\* b.Interface(&v).Method(m).<Apply | As().Return | As().When(7).Return>: kind "apply", "stub" or "when".
+\* via: "lookup"  b.Interface(&v).Method(m) written out again (a cancelled cached mocker is replaced by a fresh one),
+\*      "heldI"   through the value b.Interface(&v) returned earlier (hi.Method(m)...), also after a Reset,
+\*      "heldM"   through the value ....Method(m) returned earlier, while it is still the registered mocker of m.
+\* A kept handle works on the SAME context; a mock applied through a cancelled context re-activates it with a new
+\* method table holding only this method (proxy.Interface; re-activation since the fix of F26).
 \* A second As().Return on a handle that already has a stub only extends that stub's When object (nothing is
 \* re-applied); like the bare Return of C12 the property text does not say what that means: result "free" (-1).
-Mock(b, v, m, kind) ==
+Mock(b, v, m, kind, via) ==
     /\ "Mock" \in Ops /\ alive[b] /\ m \in M[v] /\ owner[v] \in {"", b}
+    /\ via \in (IF "Held" \in Ops THEN {"lookup", "heldI", "heldM"} ELSE {"lookup"})
+    /\ via = "heldI" => cache[b][v] # 0
+    /\ via = "heldM" => (cache[b][v] # 0 /\ hm[b][v][m] # 0 /\ hm[b][v][m] = mm[b][v][m])
     /\ owner' = [owner EXCEPT ![v] = b]
-    /\ LET fresh == cache[b][v] = 0 \/ ctx[cache[b][v]].canceled IN
-       IF ~fresh /\ kind \in {"stub", "when"} /\ lastKind[b][v][m] \in {"stub", "when"}
-       THEN /\ exp' = [exp EXCEPT ![v] = IF @.orig THEN @ ELSE [@ EXCEPT !.f[m] = -1]]
-            /\ UNCHANGED <<ivar, cache, ctx, nctx, heap, nobj, alive, objOf, lastKind, okind>>
-            /\ Log([op |-> "Mock", b |-> b, v |-> v, m |-> m, kind |-> kind, id |-> nobj, obs |-> ObsVar(exp'), panic |-> ""])
-       ELSE
-       LET c == IF fresh THEN nctx + 1 ELSE cache[b][v] IN
-       LET o == nobj + 1 IN
-       LET c0 == IF fresh THEN [backup |-> "unset", canceled |-> FALSE, fun |-> [x \in Meths |-> 0], keep |-> {}, var |-> v]
-                 ELSE ctx[c] IN
-       LET c1 == [c0 EXCEPT !.backup = "taken", !.fun[m] = o, !.keep = @ \cup {o}] IN
-       /\ nctx' = IF fresh THEN nctx + 1 ELSE nctx
-       /\ ctx' = IF fresh THEN Append(ctx, c1) ELSE [ctx EXCEPT ![c] = c1]
-       /\ cache' = [cache EXCEPT ![b][v] = c]
-       /\ nobj' = o /\ heap' = heap \cup {o} /\ okind' = Append(okind, kind)
-       /\ objOf' = [objOf EXCEPT ![b][v][m] = o]
-       /\ lastKind' = IF fresh THEN [lastKind EXCEPT ![b][v] = [x \in Meths |-> IF x = m THEN kind ELSE "none"]]
-                      ELSE [lastKind EXCEPT ![b][v][m] = kind]
-       /\ ivar' = [ivar EXCEPT ![v] = "fake"]
-       /\ exp' = [exp EXCEPT ![v] = IF @.orig THEN [orig |-> FALSE, f |-> [x \in Meths |-> IF x = m THEN o ELSE 0]]
-                                     ELSE [@ EXCEPT !.f[m] = o]]
-       /\ UNCHANGED alive
-       /\ Log([op |-> "Mock", b |-> b, v |-> v, m |-> m, kind |-> kind, id |-> o, obs |-> ObsVar(exp'), panic |-> ""])
+    /\ LET fresh == via = "lookup" /\ (cache[b][v] = 0 \/ ctx[cache[b][v]].canceled)
+           newmm == via # "heldM" /\ (fresh \/ mm[b][v][m] = 0 \/ mm[b][v][m] \in mmc)
+           id == IF newmm THEN nmm + 1 ELSE mm[b][v][m]
+           hasWhen == ~newmm /\ lastKind[b][v][m] \in {"stub", "when"} IN
+       /\ nmm' = IF newmm THEN nmm + 1 ELSE nmm
+       /\ mm' = IF fresh THEN [mm EXCEPT ![b][v] = [x \in Meths |-> IF x = m THEN id ELSE 0]] ELSE [mm EXCEPT ![b][v][m] = id]
+       /\ hm' = [hm EXCEPT ![b][v][m] = id]
+       /\ UNCHANGED mmc
+       /\ IF hasWhen /\ kind \in {"stub", "when"}
+          THEN /\ exp' = [exp EXCEPT ![v] = IF @.orig THEN @ ELSE [@ EXCEPT !.f[m] = -1]]
+               /\ UNCHANGED <<ivar, cache, ctx, nctx, heap, nobj, alive, objOf, lastKind, okind>>
+               /\ Log([op |-> "Mock", b |-> b, v |-> v, m |-> m, kind |-> kind, via |-> via, id |-> nobj, obs |-> ObsVar(exp'), panic |-> ""])
+          ELSE
+          LET c == IF fresh THEN nctx + 1 ELSE cache[b][v] IN
+          LET o == nobj + 1 IN
+          LET c0 == IF fresh THEN [backup |-> "unset", canceled |-> FALSE, fun |-> [x \in Meths |-> 0], keep |-> {}, var |-> v]
+                    ELSE ctx[c] IN
+          LET c1 == IF c0.backup = "taken" /\ ~c0.canceled
+                    THEN [c0 EXCEPT !.fun[m] = o, !.keep = @ \cup {o}]
+                    ELSE [c0 EXCEPT !.backup = "taken", !.canceled = FALSE, !.fun = [x \in Meths |-> IF x = m THEN o ELSE 0], !.keep = @ \cup {o}] IN
+          /\ nctx' = IF fresh THEN nctx + 1 ELSE nctx
+          /\ ctx' = IF fresh THEN Append(ctx, c1) ELSE [ctx EXCEPT ![c] = c1]
+          /\ cache' = [cache EXCEPT ![b][v] = c]
+          /\ nobj' = o /\ heap' = heap \cup {o} /\ okind' = Append(okind, kind)
+          /\ objOf' = [objOf EXCEPT ![b][v][m] = o]
+          /\ lastKind' = IF fresh THEN [lastKind EXCEPT ![b][v] = [x \in Meths |-> IF x = m THEN kind ELSE "none"]]
+                         ELSE [lastKind EXCEPT ![b][v][m] = kind]
+          /\ ivar' = [ivar EXCEPT ![v] = "fake"]
+          /\ exp' = [exp EXCEPT ![v] = IF @.orig THEN [orig |-> FALSE, f |-> [x \in Meths |-> IF x = m THEN o ELSE 0]]
+                                        ELSE [@ EXCEPT !.f[m] = o]]
+          /\ UNCHANGED alive
+          /\ Log([op |-> "Mock", b |-> b, v |-> v, m |-> m, kind |-> kind, via |-> via, id |-> o, obs |-> ObsVar(exp'), panic |-> ""])
 
-\* Builder.Reset: every cached interface mocker's context is canceled: the backup is written back
+\* Builder.Reset: every registered method mocker of every cached interface mocker is cancelled (its When dropped) and
+\* the context with it: the backup is written back
 Reset(b) ==
     /\ "Reset" \in Ops /\ alive[b]
     /\ LET C == {cache[b][v] : v \in V} \ {0} IN
        /\ ctx' = [i \in 1..Len(ctx) |-> IF i \in C THEN [ctx[i] EXCEPT !.canceled = TRUE] ELSE ctx[i]]
        /\ ivar' = [v \in V |-> IF cache[b][v] # 0 /\ ctx[cache[b][v]].backup = "taken" THEN "orig" ELSE ivar[v]]
        /\ exp' = [v \in V |-> IF cache[b][v] # 0 /\ ctx[cache[b][v]].backup = "taken" THEN Orig ELSE exp[v]]
-    /\ UNCHANGED <<cache, nctx, heap, nobj, alive, objOf, lastKind, owner, okind>>
+    /\ mmc' = mmc \cup ({mm[b][v][m] : v \in V, m \in Meths} \ {0})
+    /\ lastKind' = [lastKind EXCEPT ![b] = [v \in V |-> [m \in Meths |-> "none"]]]
+    /\ UNCHANGED <<cache, nctx, heap, nobj, alive, objOf, owner, okind, mm, hm, nmm>>
     /\ Log([op |-> "Reset", b |-> b, obs |-> ObsVar(exp'), panic |-> ""])
 
 \* the test drops every reference to the builder and its handles
 Drop(b) == /\ "Drop" \in Ops /\ alive[b]
            /\ alive' = [alive EXCEPT ![b] = FALSE]
-           /\ UNCHANGED <<ivar, cache, ctx, nctx, heap, nobj, objOf, lastKind, owner, okind, exp>>
+           /\ UNCHANGED <<ivar, cache, ctx, nctx, heap, nobj, objOf, lastKind, owner, okind, mm, hm, nmm, mmc, exp>>
            /\ Log([op |-> "Drop", b |-> b, obs |-> ObsVar(exp), panic |-> ""])
 
 \* a collection: objects reachable from a live builder's mockers, or from a context that a variable still holds
@@ -101,7 +126,7 @@ Reachable == {objOf[b][v][m] : b \in {x \in B : alive[x]}, v \in V, m \in Meths}
              \cup UNION {UNION {ctx[cache[b][v]].keep : v \in {y \in V : cache[b][y] # 0}} : b \in {x \in B : alive[x]}}
 GC == /\ "GC" \in Ops
       /\ heap' = heap \cap Reachable
-      /\ UNCHANGED <<ivar, cache, ctx, nctx, nobj, alive, objOf, lastKind, owner, okind, exp>>
+      /\ UNCHANGED <<ivar, cache, ctx, nctx, nobj, alive, objOf, lastKind, owner, okind, mm, hm, nmm, mmc, exp>>
       /\ Log([op |-> "GC", obs |-> ObsVar(exp), panic |-> ""])
 
 \* the context the variable's fabricated itab belongs to
@@ -115,15 +140,15 @@ ReqCall(v, m, a) == IF exp[v].orig THEN "orig"
                  ELSE IF exp[v].f[m] = 0 THEN "panic:notimpl" ELSE Answer(exp[v].f[m], a)
 Call(v, m, a) == /\ "Call" \in Ops /\ m \in M[v]
               /\ Log([op |-> "Call", v |-> v, m |-> m, a |-> a, res |-> ReqCall(v, m, a), ires |-> ImplCall(v, m, a), obs |-> ObsVar(exp), panic |-> ""])
-              /\ UNCHANGED <<ivar, cache, ctx, nctx, heap, nobj, alive, objOf, lastKind, owner, okind, exp>>
+              /\ UNCHANGED <<ivar, cache, ctx, nctx, heap, nobj, alive, objOf, lastKind, owner, okind, mm, hm, nmm, mmc, exp>>
 
-Finish == Len(hist) = MaxOps /\ hist' = Append(hist, [op |-> "End"]) /\ UNCHANGED <<ivar, cache, ctx, nctx, heap, nobj, alive, objOf, lastKind, owner, okind, exp>>
+Finish == Len(hist) = MaxOps /\ hist' = Append(hist, [op |-> "End"]) /\ UNCHANGED <<ivar, cache, ctx, nctx, heap, nobj, alive, objOf, lastKind, owner, okind, mm, hm, nmm, mmc, exp>>
 Next == \/ Finish
         \/ /\ Len(hist) < MaxOps
-           /\ \/ \E b \in B, v \in V, m \in Meths, k \in {"apply", "stub", "when"} : Mock(b, v, m, k)
+           /\ \/ \E b \in B, v \in V, m \in Meths, k \in Kinds, via \in {"lookup", "heldI", "heldM"} : Mock(b, v, m, k, via)
               \/ \E b \in B : Reset(b) \/ Drop(b)
               \/ GC
-              \/ \E v \in V, m \in Meths, a \in {7, 8} : Call(v, m, a)
+              \/ \E v \in V, m \in Meths, a \in Args : Call(v, m, a)
 Spec == Init /\ [][Next]_vars
 
 Last == hist[Len(hist)]
@@ -131,6 +156,6 @@ CallsConform == (Len(hist) > 0 /\ Last.op = "Call" /\ Last.res # "free") => Last
 VarsConform == \A v \in V : exp[v].orig = (ivar[v] = "orig")
 \* every object a callable stub jumps through is alive
 NoDangling == \A v \in V : ivar[v] = "fake" => \A m \in M[v] : LET o == ctx[CtxOf(v)].fun[m] IN o = 0 \/ o \in heap
-View == <<ivar, cache, ctx, nctx, heap, nobj, alive, objOf, lastKind, owner, okind, exp, Len(hist)>>
+View == <<ivar, cache, ctx, nctx, heap, nobj, alive, objOf, lastKind, owner, okind, mm, hm, nmm, mmc, exp, Len(hist)>>
 Emit == Len(hist) = MaxOps + 1 => PrintT(ToJson(SubSeq(hist, 1, MaxOps)))
 =============================================================================
